@@ -1,5 +1,6 @@
 import OxyModel.Proofs.Stack.Basic
 import OxyModel.Proofs.Stack.Link
+import OxyModel.Proofs.Writer
 import OxyModel.Props.C01
 import OxyModel.Props.C05
 import OxyModel.Props.C15
@@ -867,5 +868,74 @@ example : (serveStack ((msPass.take 2).map Layer.cfg ++ mRefuse.cfg :: [{ kind :
     ∧ (serveStack ((msPass.take 2).map Layer.cfg ++ mRefuse.cfg :: [{ kind := .buffer }]) h1 ⟨0⟩).invoked = 0 := by decide
 
 end link
+
+/-! ## The writer handed inward (`utils.ProxyWriter`, Model/Writer.lean)
+
+`trace`, `cbreaker` and the `Rebalancer` wrap the writer in a `utils.ProxyWriter` before calling `next`.  The theorems below are
+about every nest of ProxyWriters (any depth, any field values), every base writer (with or without `Flusher` / `Hijacker`) and
+every sequence of calls a handler can make (`WriteHeader` with any code incl. informational ones, `Write` with any bytes incl.
+none, `Flush`, `Hijack`). -/
+section writer
+open Writer
+
+/-- **Transparent call by call.**  Whatever has been written through a nest of ProxyWriters, the wrapped writer has received
+exactly the handler's calls, in order, minus the `Flush` / `Hijack` calls it has no method for — every `WriteHeader`
+(informational or final, repeated or not) and every `Write` (empty ones included) reaches it unchanged. -/
+theorem C20_pw_transparent (base : Base) (s : St) (cs : List Call) :
+    (run base s cs).seen = s.seen ++ cs.filter (deliverable base) := run_seen base s cs
+
+/-- The nest is invisible: the base writer receives the same calls as when the handler holds it directly (depth 0), so what
+`net/http` puts on the wire (`Writer.wire`) is the same at every depth. -/
+theorem C20_pw_depth_irrelevant (base : Base) (depth : Nat) (cs : List Call) :
+    (run base (fresh depth) cs).seen = (run base (fresh 0) cs).seen
+    ∧ wire (run base (fresh depth) cs).seen = wire (run base (fresh 0) cs).seen := by
+  have : (run base (fresh depth) cs).seen = (run base (fresh 0) cs).seen := by simp [run_seen, fresh]
+  exact ⟨this, by rw [this]⟩
+
+/-- **What a ProxyWriter records.**  After any calls, every ProxyWriter of a fresh nest answers `StatusCode()` with the code of
+the handler's *last* `WriteHeader` call (200 when there was none, or when it was 0) and `GetLength()` with the total number of
+bytes passed to `Write`. -/
+theorem C20_pw_records (base : Base) (depth : Nat) (cs : List Call) :
+    ∀ p ∈ (run base (fresh depth) cs).pws, p.statusCode = recorded cs ∧ p.length = written cs := by
+  intro p hp
+  rw [run_pws] at hp
+  simp only [fresh, List.map_replicate, List.mem_replicate] at hp
+  obtain ⟨_, rfl⟩ := hp
+  refine ⟨?_, by simp [foldl_record_length]⟩
+  simp only [PW.statusCode, foldl_record_code, recorded]
+  cases lastCode cs <;> simp
+
+/-- The nest neither grows nor shrinks, and `Hijack` succeeds through it iff the base writer is a `Hijacker`; `Flush` on a
+ProxyWriter never fails (without a nest the handler's own type assertion decides). -/
+theorem C20_pw_capabilities (base : Base) (pws : List PW) :
+    (∀ c, (call base pws c).1.length = pws.length)
+    ∧ (call base pws .hijack).2.2 = base.hijacker
+    ∧ (call base pws .flush).2.2 = (if pws = [] then base.flusher else true) :=
+  ⟨call_length base pws, call_hijack_ok base pws, call_flush_ok base pws⟩
+
+/-- **Recorded status = status on the wire, for orderly handlers.**  If the handler sends informational codes only before its
+single final `WriteHeader` (code ≥ 100), and that call precedes every `Write` / `Flush` (or there is no `WriteHeader` at all),
+then the status every ProxyWriter reports — the one the breaker's metrics and the rebalancer's meters count — is the status
+`net/http` sends to the client. -/
+theorem C20_pw_status_is_wire_status (cs : List Call) (h : orderly cs = true) :
+    recorded cs = (wire cs).final := (orderly_spec cs {} rfl h).symm
+
+/-- … and only for those: a 1xx followed by an implicit 200, a superfluous second `WriteHeader`, and a `WriteHeader` after the
+first `Write` are each recorded with a code the client never saw (recorded behaviour of the unchanged code, not flagged: the
+breaker's conditions are stated over recorded codes). -/
+theorem C20_pw_status_disorderly_counterexample :
+    (recorded [.writeHeader 103, .write [1]] = 103 ∧ (wire [.writeHeader 103, .write [1]]).final = 200)
+    ∧ (recorded [.writeHeader 200, .writeHeader 500] = 500 ∧ (wire [.writeHeader 200, .writeHeader 500]).final = 200)
+    ∧ (recorded [.write [1], .writeHeader 404] = 404 ∧ (wire [.write [1], .writeHeader 404]).final = 200) := by decide
+
+/-- non-vacuity: a three-deep nest over a writer without `Flusher`, a handler that sends 103, then 201, an empty and a non-empty
+`Write`, flushes and tries to hijack -/
+example :
+    let cs : List Call := [.writeHeader 103, .writeHeader 201, .write [], .write [7, 8], .flush, .hijack]
+    orderly cs = true ∧ recorded cs = 201 ∧ written cs = 2
+    ∧ (run ⟨false, true⟩ (fresh 3) cs).seen = [.writeHeader 103, .writeHeader 201, .write [], .write [7, 8], .hijack]
+    ∧ (wire cs).infos = [103] ∧ (wire cs).final = 201 := by decide
+
+end writer
 
 end C20
